@@ -7,14 +7,16 @@ import (
 	"verifharness/internal/ev"
 )
 
-// The `source` family: KeyLookup names ONE source ("header:<name>" / "query:<name>"). A request
-// that presents a live session id through that source must get that session, whatever a cookie
-// of the same name says; a request that presents nothing through the source gets a fresh session.
+// The `source` family: KeyLookup names ONE source. A request that presents a live session id
+// through that source must get that session, whatever another source (`alt`: cookie, header or
+// query parameter of the same name) says; a request that presents nothing through the configured
+// source gets a fresh session. All ordered pairs (configured, alt) are run; query + cookie is
+// only counted (see below).
 //
 // variant 0: source carries live S2, cookie carries live S1 (both sessions of the same client)
 // variant 1: source carries live S2, cookie carries an id the server never issued
 // variant 2: source carries nothing, cookie carries live S1
-func runSourceFixed(e *ev.Env, c *ev.Case, cfg cfgT, variant int) {
+func runSourceFixed(e *ev.Env, c *ev.Case, cfg cfgT, variant int, alt string) {
 	if !cfg.VStore {
 		cfg.Gran = time.Second
 	}
@@ -43,7 +45,7 @@ func runSourceFixed(e *ev.Env, c *ev.Case, cfg cfgT, variant int) {
 		e.Inconclusive("source: could not create two sessions")
 		return
 	}
-	rq := &request{Client: 0, MW: mw, Presented: s2, Class: "jar", Cookie: s1, Ops: fin(get("k0"))}
+	rq := &request{Client: 0, MW: mw, Presented: s2, Class: "jar", Cookie: s1, AltSrc: alt, Ops: fin(get("k0"))}
 	switch variant {
 	case 1:
 		rq.Cookie = "cookie-chosen-by-client"
@@ -62,7 +64,7 @@ func runSourceFixed(e *ev.Env, c *ev.Case, cfg cfgT, variant int) {
 	}
 	probe := &reqObs{}
 	h.cur = &script{MW: rq.MW, Ops: nil, Obs: probe}
-	line := fmt.Sprintf("%s c0 %s present=%s:%s +cookie %s=%s", stamp(h.w.now), map[bool]string{true: "mw", false: "store"}[mw], cfg.Source, rq.Presented, cfg.Name, rq.Cookie)
+	line := fmt.Sprintf("%s c0 %s present=%s:%s +%s %s=%s", stamp(h.w.now), map[bool]string{true: "mw", false: "store"}[mw], cfg.Source, rq.Presented, alt, cfg.Name, rq.Cookie)
 	h.trace = append(h.trace, line)
 	rq2 := *rq
 	rq2.Ops = nil
@@ -71,27 +73,27 @@ func runSourceFixed(e *ev.Env, c *ev.Case, cfg cfgT, variant int) {
 	}
 	e.Eval(1)
 	e.Stat("source-probes", 1)
-	e.Nontrivial("source", cfg.Source, fmt.Sprint(variant), fmt.Sprint(mw), fmt.Sprint(cfg.VStore))
+	e.Nontrivial("source", cfg.Source, alt, fmt.Sprint(variant), fmt.Sprint(mw), fmt.Sprint(cfg.VStore))
 	got := probe.Start.View
 	h.trace[len(h.trace)-1] += fmt.Sprintf(" -> id=%s fresh=%v data=%v", got.ID, got.Fresh, got.Data)
 	bad := ""
 	switch variant {
 	case 0:
 		if got.ID == s1 {
-			bad = fmt.Sprintf("the %s presents live session %q, the handler got session %q named by a cookie", cfg.Source, s2, s1)
+			bad = fmt.Sprintf("the %s presents live session %q, the handler got session %q named by the "+alt, cfg.Source, s2, s1)
 		} else if got.ID != s2 {
 			bad = fmt.Sprintf("the %s presents live session %q, the handler got %q", cfg.Source, s2, got.ID)
 		}
 	case 1:
 		if got.ID != s2 {
-			bad = fmt.Sprintf("the %s presents live session %q; because a cookie of the same name carries an unknown id the handler got fresh session %q", cfg.Source, s2, got.ID)
+			bad = fmt.Sprintf("the %s presents live session %q; because the %s carries an unknown id under the same name the handler got fresh session %q", cfg.Source, s2, alt, got.ID)
 		}
 	case 2:
 		if got.ID == s1 {
-			bad = fmt.Sprintf("nothing presented through the %s, yet the handler got session %q named by a cookie", cfg.Source, s1)
+			bad = fmt.Sprintf("nothing presented through the %s, yet the handler got session %q named by the "+alt, cfg.Source, s1)
 		}
 	}
-	if bad != "" && cfg.Source == "query" {
+	if bad != "" && cfg.Source == "query" && alt == "cookie" {
 		// With KeyLookup "query:<name>" the server itself hands the id out in a Set-Cookie of that
 		// name (session.go setSession), so honouring the cookie is not clearly against the
 		// configuration: observed and counted, not judged.
@@ -99,24 +101,22 @@ func runSourceFixed(e *ev.Env, c *ev.Case, cfg cfgT, variant int) {
 		bad = ""
 	}
 	if bad != "" {
-		e.Violation(c, "source|cookie-consulted-though-source-is-"+cfg.Source, bad, h.detail())
+		e.Violation(c, "source|"+alt+"-consulted-though-source-is-"+cfg.Source, bad, h.detail())
 	}
 }
 
 func runSource(e *ev.Env, c *ev.Case) {
 	r := c.R
 	cfg := genCfg(r)
-	if cfg.Source == "cookie" {
-		if r.Bool() {
-			cfg.Source, cfg.Name = "header", "X-Session-Id"
-		} else {
-			cfg.Source, cfg.Name = "query", "sid"
-		}
-	}
 	// this family is not about expiry: both sessions must be alive at the probe
 	cfg.Idle = time.Duration(r.Range(2, 5)) * time.Second
 	if cfg.Abs > 0 {
 		cfg.Abs = cfg.Idle + time.Duration(r.Range(0, 3))*time.Second
 	}
-	runSourceFixed(e, c, cfg, r.Intn(3))
+	alts := []string{"cookie", "header", "query"}
+	alt := alts[r.Intn(3)]
+	for alt == cfg.Source {
+		alt = alts[r.Intn(3)]
+	}
+	runSourceFixed(e, c, cfg, r.Intn(3), alt)
 }
